@@ -38,6 +38,7 @@ ASSUMPTIONS = [
     "ill-typed membership (missing field `in` a non-container such as an int) is not part of the enumerated grammar",
     "identity operators (is / is not) are not comparisons in the sense of the property and are not enumerated",
     "iteration over a missing field (any(x for x in r.missing)) and helper calls on a missing field (lower(r.missing)) are not comparisons on the field and are not enumerated",
+    "derived operands (arithmetic on / attribute chains of the missing field) are demanded false-and-never-raise from both engines for the operators of the language (+ * / % & |)",
     "stream selectors are comparison templates whose reference value is defined on every record of the stream",
 ]
 SHARDS = {"quick": 8, "thorough": 16}
@@ -82,12 +83,12 @@ OTHERS = [
     ("ctor:net.ipaddress", "net.ipaddress('10.0.0.1')", False), ("ctor:net.ipnetwork", "net.ipnetwork('10.0.0.0/8')", True),
     ("ctor:net.IPNetwork", "net.IPNetwork('::/0')", True), ("names(r)", "names(r)", True), ("name(r)", "name(r)", True),
 ]
-# derived operands: (category, source, the source with the innermost arithmetic on the sentinel replaced by False)
+# derived operands: arithmetic on / attributes of the missing field, (category, source)
 DERIVED = [
-    ("arith", "r.zz + 1", "False"), ("arith", "1 + r.zz", "False"), ("arith", "r.zz * 2", "False"), ("arith", "r.zz / 2", "False"),
-    ("arith", "r.zz % 2", "False"), ("arith", "r.zz & 1", "False"), ("arith", "r.zz | 1", "False"), ("arith", "r.n + r.zz", "False"),
-    ("arith", "r.zz + r.nope", "False"), ("arith", "(r.zz + 1) * 2", "(False) * 2"),
-    ("attr", "r.zz.year", None), ("attr", "r.zz.a.b", None), ("attr", "r.zz.filename", None),
+    ("arith", "r.zz + 1"), ("arith", "1 + r.zz"), ("arith", "r.zz * 2"), ("arith", "2 * r.zz"), ("arith", "r.zz / 2"), ("arith", "r.zz % 2"),
+    ("arith", "r.zz & 1"), ("arith", "r.zz | 1"), ("arith", "r.n + r.zz"), ("arith", "r.zz + r.nope"), ("arith", "(r.zz + 1) * 2"),
+    ("arith", "r.s + r.zz"), ("arith", "r.zz.size + 1"),
+    ("attr", "r.zz.year"), ("attr", "r.zz.a.b"), ("attr", "r.zz.filename"), ("attr", "r.zz.a.b.c.d"),
 ]
 DERIVED_OTHERS = ["0", "1", "5", "'x'", "None", "r.n", "[0]", "False"]
 
@@ -126,17 +127,10 @@ def is_container(v):
     return hasattr(v, "__contains__") or hasattr(v, "__iter__")
 
 
-def answers_eq_for_every_operand(v):
-    """The operand's type has a total __eq__ (never NotImplemented), so Python derives != from it without asking the sentinel."""
-    probe = type("Probe", (), {})()
-    try:
-        return type(v).__eq__(v, probe) is not NotImplemented
-    except Exception:  # noqa: BLE001
-        return False
-
-
 def classify_cmp(engine, op, pos, values, typed, got, exc):
     """Mechanism of a known defect, from the case itself: engine + operator + position + operand kind + failure mode.
+    Only the two mechanisms still listed as `known` have a classifier (total __eq__ of field types, the ipv4 address
+    __eq__, <= / >= of the sentinel and derived operands were repaired: they are plain violations again).
 
     pos: 'L' missing field on the left, 'R' on the right, 'B' both missing.  values: value(s) of the other operand.
     got: ('V', truth of the bare comparison) or ('E', exception class name)."""
@@ -148,32 +142,6 @@ def classify_cmp(engine, op, pos, values, typed, got, exc):
     if engine == "compiled" and op in ("in", "not in") and pos == "L" and got[0] == "E" and isinstance(exc, TypeError) and values \
             and all(isinstance(v, (str, bytes, bytearray, set, frozenset, dict)) for v in values):
         return "compiled-in-str-bytes-set-missing-field"
-    # both engines: `<value> != r.missing` where the value's type answers __eq__ for every operand
-    if op == "!=" and pos == "R" and got == ("V", True) and values and any(answers_eq_for_every_operand(v) for v in values):
-        return "total-eq-fieldtype-ne-missing"
-    # both engines: the deprecated net.ipv4 address converts the other operand with inet_aton() in __eq__
-    if op in ("==", "!=") and pos == "R" and got[0] == "E" and isinstance(exc, TypeError) and values \
-            and all(type(v).__module__ == "flow.record.fieldtypes.net.ipv4" and type(v).__name__ == "address" for v in values):
-        return "ipv4-address-eq-raises-on-missing"
-    return None
-
-
-def classify_derived(engine, category, got, exc, guarded=None, rec=None):
-    # the BinOp guard answers False for arithmetic on the sentinel; False then takes part in the comparison like 0:
-    # the engine's answer must be exactly what Python gives with False in place of that arithmetic
-    if engine == "interpreted" and category == "arith" and guarded:
-        try:
-            sim = ("V", ref_match(guarded, rec))
-        except Undefined as e:
-            sim = ("E", "TypeError") if "TypeError" in str(e) else None
-        except Unsupported:
-            sim = None
-        if sim is not None and got == sim and (got[0] == "V" or isinstance(exc, TypeError)):
-            return "interpreted-binop-guard-returns-false"
-    if engine == "compiled" and category == "arith" and got[0] == "E" and isinstance(exc, TypeError):
-        return "compiled-arithmetic-on-missing-field"
-    if engine == "compiled" and category == "attr" and got[0] == "E" and isinstance(exc, AttributeError):
-        return "compiled-attribute-of-missing-field"
     return None
 
 
@@ -243,7 +211,7 @@ def generate(ctx):
                 yield {"k": "table", "op": op, "pos": pos, "kind": kind, "other": src, "container": container, "cmp": cmp_src,
                        "pool": pool_seed, "rec": ri}
             idx += 1
-        for category, dsrc, guarded in DERIVED:
+        for category, dsrc in DERIVED:
             for op in OPS[:6] + ["in"]:
                 for o in DERIVED_OTHERS:
                     if op == "in" and not o.startswith("["):
@@ -253,8 +221,7 @@ def generate(ctx):
                             continue
                         fmt = fmt.format(op=op, o=o)
                         if ctx.mine(idx):
-                            yield {"k": "derived", "category": category, "op": op, "cmp": fmt % dsrc,
-                                   "guarded": (fmt % guarded) if guarded else None, "pool": pool_seed, "rec": ri}
+                            yield {"k": "derived", "category": category, "op": op, "cmp": fmt % dsrc, "pool": pool_seed, "rec": ri}
                         idx += 1
         for h in HELPERS:
             for fl in FIELD_LISTS:
@@ -336,8 +303,7 @@ def exec_derived(ctx, case):
     rec = pool_for(ctx, case["pool"])[case["rec"]]
     ctx.cell("derived", case["category"], case["op"])
     ctx.nontrivial("derived", case["cmp"], case["pool"], case["rec"])
-    check_comparison(ctx, case, rec, case["cmp"],
-                     lambda engine, got, exc: classify_derived(engine, case["category"], got, exc, case.get("guarded"), rec))
+    check_comparison(ctx, case, rec, case["cmp"], lambda engine, got, exc: None)
     ctx.sample({"comparison": case["cmp"], "expected": "False, no exception"}, kind="derived:" + case["category"])
 
 
@@ -416,6 +382,12 @@ def stream_templates():
     add("r.u >= 'g'", ">=", "L", "'g'", wrap=False)
     add("r.d.year == 2020 and r.f > 1", ">", "L", "1", wrap=False)
     add("r.k > 1 or r.f > 1", ">", "L", "1", wrap=False)
+    # derived operands: arithmetic on / attribute of the possibly missing field.  `needs`: the record must have these
+    # fields, else the comparison is False (the reference evaluator does not model derived operands of a missing field)
+    for expr, needs in (("r.k + 1 > 2", "k"), ("r.k * 2 <= 4", "k"), ("4 >= r.k * 2", "k"), ("r.k % 2 == 0", "k"), ("(r.f / 2) < 1", "f"),
+                        ("r.d.year == 2020", "d"), ("r.d.year != 1999", "d"), ("r.u.filename == 'z.txt'", "u"), ("r.t + 'x' != 'x'", "t"),
+                        ("r.m + r.k > 0", "m,k"), ("not (r.k + 1 > 2)", "k"), ("r.k + 1 > 2 or r.f > 1", None)):
+        out.append({"expr": expr, "meta": {"op": "derived", "pos": "L", "other": "None", "needs": needs}})
     add("field_contains(r, ['t', 'zz'], ['hello'])", "helper", "L", "None", wrap=False)
     add("field_equals(r, ['k', 's'], ['x', 'Hello'])", "helper", "L", "None", wrap=False)
     add("field_regex(r, ['t'], '^[Hh]')", "helper", "L", "None", wrap=False)
@@ -535,6 +507,21 @@ def run_via(ctx, via, path, expr):
     return out, err, list(tap.records)
 
 
+def reference_keep(expr, meta, rec):
+    """Should the reference filter keep this record?"""
+    needs = meta.get("needs")
+    if meta["op"] != "derived":
+        return ref_match(expr, rec, lenient=True)
+    fields = rec._desc.fields
+    if expr == "not (r.k + 1 > 2)":
+        return not ("k" in fields and ref_match("r.k + 1 > 2", rec))
+    if expr == "r.k + 1 > 2 or r.f > 1":
+        return ("k" in fields and ref_match("r.k + 1 > 2", rec)) or ("f" in fields and ref_match("r.f > 1", rec))
+    if any(f not in fields for f in needs.split(",")):
+        return False   # a comparison on (something derived from) a field the record lacks is false
+    return ref_match(expr, rec)
+
+
 def exec_stream(ctx, case):
     from flow.record.selector import CompiledSelector, Selector
 
@@ -551,7 +538,7 @@ def exec_stream(ctx, case):
         sources.append(records2)
         records = records + records2
     try:
-        keep = [ref_match(expr, r, lenient=True) for r in records]
+        keep = [reference_keep(expr, meta, r) for r in records]
     except (Undefined, Unsupported):
         ctx.event("skipped:stream-selector-undefined-on-some-record")
         return
@@ -592,7 +579,7 @@ def exec_stream(ctx, case):
                 values = other_values(meta["other"], r)
                 # a template that deviates by value does so because its comparison on the missing field is truthy
                 bare = g if g[0] == "E" else ("V", True)
-                keys.add(classify_cmp(engine, meta["op"], meta["pos"], values, False, bare, exc) if meta["op"] != "helper" else None)
+                keys.add(classify_cmp(engine, meta["op"], meta["pos"], values, False, bare, exc) if meta["op"] in OPS else None)
             if g[0] == "E":
                 aborted = True
                 break  # the rest of this source is lost, the next source is still read
